@@ -270,7 +270,7 @@ Definition server_client_hello (s : server_cfg) (keyok keyfit : N -> bool) (h : 
         if has v c_v_tls_1_3_any then
           match choose_suite (gcfg_server s (set_ngtd v)) keyok keyfit (h_suites h) with
           | Some su => Ok (Acc13 v (s_id su))
-          | None => Err c_SSL_ALERT_INTERNAL_ERROR      (* tls13ParseClientHello returns chooseCipherSuite's rc, ssl->err unset *)
+          | None => Err c_SSL_ALERT_DECODE_ERROR        (* tls13ParseClientHello returns chooseCipherSuite's rc with ssl->err unset: matrixSslDecodeTls13 then picks decode_error *)
           end
         else legacy_client_hello s keyok keyfit h (Ok v)        (* SSL_NO_TLS_1_3: drop to parseClientHello *)
     end
